@@ -204,10 +204,10 @@ def le_rule(ctx: Ctx, rid: str = "R18.le") -> None:
     r.floor(16)
 
 
-def acc_rule(ctx: Ctx) -> None:
+def acc_rule(ctx: Ctx, rid: str = "R18.acc") -> None:
     m = ctx.model
     mem = m.cls("Memory")
-    r = ctx.rule("R18.acc", "per-width accessor table")
+    r = ctx.rule(rid, "per-width accessor table")
     from ..flowspec import signature
 
     def acc_sig(sig):
